@@ -25,6 +25,7 @@ import (
 	"net"
 	"strings"
 	"sync"
+	"sync/atomic"
 	"time"
 
 	mqPkts "github.com/eclipse/paho.mqtt.golang/packets"
@@ -50,6 +51,9 @@ type handler1 struct {
 	keepAlive        uint16
 	clientID         string
 	topicID          *util.IDSequence
+	// Set (atomically) once all TopicIDs were handed out. TopicIDs must not be
+	// reused in the session, hence the state is final.
+	topicIDsDepleted uint32
 	pktBuffer        []snPkts.Packet
 	group            *errgroup.Group
 	transactions     *transactions.TransactionStore
@@ -489,8 +493,14 @@ func (h *handler1) mqttReceiveLoop(ctx context.Context) error {
 }
 
 func (h *handler1) newTopicID() (uint16, error) {
+	// h.topicID wraps around after the overflow is signalized once => we must
+	// remember the overflow otherwise already assigned TopicIDs would be reused.
+	if atomic.LoadUint32(&h.topicIDsDepleted) != 0 {
+		return 0, ErrTopicIDsExhausted
+	}
 	topicID, overflow := h.topicID.Next()
 	if overflow {
+		atomic.StoreUint32(&h.topicIDsDepleted, 1)
 		return 0, ErrTopicIDsExhausted
 	}
 	for {
@@ -498,6 +508,7 @@ func (h *handler1) newTopicID() (uint16, error) {
 			break
 		}
 		if topicID, overflow = h.topicID.Next(); overflow {
+			atomic.StoreUint32(&h.topicIDsDepleted, 1)
 			return 0, ErrTopicIDsExhausted
 		}
 	}
